@@ -58,3 +58,19 @@ package jsonapi
 //@ loop 1 invariant rels-only: forall r string :: r in res.Type.Rels ==> visited(r) && r in typ.Rels && rsk_relData(old(text(data)), r) != ""
 //@ loop 1 invariant typed: upTyped(res)
 //@ loop 2 invariant ids: fresh(ids) && len(ids) == len(idens) && unchanged(heap[string])
+
+//@ func UnmarshalIdentifier
+//@ props C05 C12
+//@ modifies new[Identifier], new[string]
+//@ ensures error-xor-result: result1 != nil ==> result0 == zero(type[Identifier])
+//@ ensures complete: result1 == nil ==> result0.ID != "" && result0.Type != ""
+//@ ensures known-type: result1 == nil && schema != nil ==> hasType(schema, result0.Type)
+
+//@ func UnmarshalIdentifiers
+//@ flag absolute-quantifiers
+//@ props C05 C12
+//@ modifies new[Identifier], new[string], new[[]uint8], new[*[]uint8], new[uint8], new[[]*[]uint8]
+//@ ensures error-xor-result: result1 != nil ==> len(result0) == 0
+//@ ensures known-types: result1 == nil && schema != nil ==> (forall i int :: 0 <= i && i < len(result0) ==> hasType(schema, result0[i].Type) && result0[i].ID != "")
+//@ loop 0 invariant idens: fresh(idens) && len(idens) == len(raw) && raw == pre(raw) && unchanged(heap[Identifier]) && unchanged(heap[string]) && unchanged(heap[Type]) && unchanged(heap[Schema])
+//@ loop 0 invariant done: schema != nil ==> (forall k int :: 0 <= k && k <= $idx ==> hasType(schema, idens[k].Type) && idens[k].ID != "")
